@@ -4,6 +4,7 @@ package main
 // atomics, and environment stubs.
 
 import (
+	"crypto/hmac"
 	"crypto/sha1"
 	"crypto/sha256"
 	"crypto/sha512"
@@ -467,6 +468,26 @@ func init() {
 		"github.com/piotrnar/gocoin/lib/others/ripemd160.New": func(r *Run, fn *ssa.Function, a []Value) Value {
 			return r.newHash("ripemd160", "github.com/piotrnar/gocoin/lib/others/ripemd160", "digest")
 		},
+		"crypto/hmac.New": func(r *Run, fn *ssa.Function, a []Value) Value {
+			// ghost: HMAC_alg(key, msg) is an (assumed injective) function of  len(key) || key || msg
+			inner := r.callValue(a[0], nil, nil).(*IfaceV)
+			ig := r.ghostOf(inner.val)
+			key := r.sliceBytes(a[1].(*SliceV))
+			h := r.newHash("hmac-"+ig.alg, "crypto/hmac", "hmac").(*IfaceV)
+			g := r.ghostOf(h.val)
+			g.stream = append(g.stream, r.ts.Const(8, uint64(len(key)>>8)), r.ts.Const(8, uint64(len(key)&0xff)))
+			g.stream = append(g.stream, key...)
+			g.prefix = len(g.stream)
+			return h
+		},
+		zz + "UF": func(r *Run, fn *ssa.Function, a []Value) Value {
+			// uninterpreted (injective) function of a byte string with n output bytes
+			name, n := strArg(a[0]), intArg(a[1])
+			in := r.sliceBytes(a[2].(*SliceV))
+			out := r.digest(fmt.Sprintf("uf:%s:%d", name, n), in)
+			r.h.noteStub("uninterpreted injective function " + name)
+			return r.newByteSlice(out, len(out))
+		},
 		"crypto/sha256.Sum256": func(r *Run, fn *ssa.Function, a []Value) Value {
 			out := r.digest("sha256", r.sliceBytes(a[0].(*SliceV)))
 			return bytesToArray(out)
@@ -483,8 +504,11 @@ func init() {
 	for k, v := range base {
 		intrinsics[k] = v
 	}
-	for _, p := range []string{"crypto/sha256", "crypto/sha1", "crypto/sha512", "github.com/piotrnar/gocoin/lib/others/ripemd160"} {
+	for _, p := range []string{"crypto/sha256", "crypto/sha1", "crypto/sha512", "github.com/piotrnar/gocoin/lib/others/ripemd160", "crypto/hmac"} {
 		pre := "(*" + p + ".digest)."
+		if p == "crypto/hmac" {
+			pre = "(*crypto/hmac.hmac)."
+		}
 		intrinsics[pre+"Write"] = hashWrite
 		intrinsics[pre+"Sum"] = hashSum
 		intrinsics[pre+"Reset"] = hashReset
@@ -615,6 +639,7 @@ func (r *Run) indexSub(b, sep []*Term) Value {
 type hashGhost struct {
 	alg    string
 	stream []*Term
+	prefix int // bytes that survive Reset (HMAC key block)
 }
 
 type digestRec struct {
@@ -680,7 +705,7 @@ func hashSum(r *Run, fn *ssa.Function, a []Value) Value {
 
 func hashReset(r *Run, fn *ssa.Function, a []Value) Value {
 	g := r.ghostOf(a[0])
-	g.stream = nil
+	g.stream = g.stream[:g.prefix:g.prefix]
 	return nil
 }
 
@@ -690,6 +715,14 @@ func hashSize(r *Run, fn *ssa.Function, a []Value) Value {
 }
 
 func digestSize(alg string) int {
+	if strings.HasPrefix(alg, "hmac-") {
+		return digestSize(alg[5:])
+	}
+	if strings.HasPrefix(alg, "uf:") {
+		var n int
+		fmt.Sscanf(alg[strings.LastIndex(alg, ":")+1:], "%d", &n)
+		return n
+	}
 	switch alg {
 	case "sha256":
 		return 32
@@ -732,6 +765,9 @@ func hashUnmarshal(r *Run, fn *ssa.Function, a []Value) Value {
 }
 
 func realHash(alg string) hash.Hash {
+	if strings.HasPrefix(alg, "hmac-") || strings.HasPrefix(alg, "uf:") {
+		return nil
+	}
 	switch alg {
 	case "sha256":
 		return sha256.New()
@@ -750,10 +786,19 @@ func realHash(alg string) hash.Hash {
 // of the same algorithm on this path.
 func (r *Run) digest(alg string, stream []*Term) []*Term {
 	ts := r.ts
-	if cb, ok := concreteBytes(stream); ok {
-		h := realHash(alg)
-		h.Write(cb)
-		out := r.constBytes(h.Sum(nil))
+	if cb, ok := concreteBytes(stream); ok && !strings.HasPrefix(alg, "uf:") {
+		var sum []byte
+		if strings.HasPrefix(alg, "hmac-") {
+			kl := int(cb[0])<<8 | int(cb[1])
+			hm := hmac.New(func() hash.Hash { return realHash(alg[5:]) }, cb[2:2+kl])
+			hm.Write(cb[2+kl:])
+			sum = hm.Sum(nil)
+		} else {
+			h := realHash(alg)
+			h.Write(cb)
+			sum = h.Sum(nil)
+		}
+		out := r.constBytes(sum)
 		r.digests = append(r.digests, &digestRec{alg: alg, stream: append([]*Term{}, stream...), out: out})
 		return out
 	}
